@@ -372,7 +372,13 @@ func yamlSuite(full bool) hlib.Suite {
 						fi  int
 						val string
 					}{{-1, ""}}
-					if code == 0 && lv == "ok" {
+					// a bad value is tried with everything in the stage (code 0) and with everything in the default section (all digits 1)
+					allDefault := total - 1
+					allDefault = 0
+					for i, pw := 0, 1; i < n; i, pw = i+1, pw*3 {
+						allDefault += pw
+					}
+					if (code == 0 || code == allDefault) && lv == "ok" {
 						for fi, f := range fs {
 							for _, b := range f.bad {
 								badVariants = append(badVariants, struct {
